@@ -62,7 +62,7 @@ Proof.
 Qed.
 
 Lemma amap1_eq_dec (a c : amap) : {a = c} + {a <> c}.
-Proof. repeat decide equality. Qed.
+Proof. repeat decide equality. Defined.
 
 Lemma track_added_blink w s T i rule r bid : In rule (i_rules i) -> In r (snd rule) ->
   find_backend w s i r = Some bid -> In ((KIngress, i_full i), (KBackend, bid)) (track_added_ing w s T i).
